@@ -562,3 +562,19 @@ func lemmaTypedGettersAgreeOnFound(st *SlimTrie, key string) (bool, bool, bool, 
 //@   ensures !(int(nid)/64 < len(steps.Bitmaps) && bitat(steps.Bitmaps, nid) == 1) ==> result == 0
 //@   ensures int(nid)/64 < len(steps.Bitmaps) && bitat(steps.Bitmaps, nid) == 1 && le16(steps.Elts, 2*arr_pos(&steps.Base, int(nid))) != u16(0) ==>
 //@       int(result) == 4*(int(le16(steps.Elts, 2*arr_pos(&steps.Base, int(nid)))) - 1)
+
+// initLevels (C18): the totals of the last level entry are the node count, the inner-node count and their difference.
+// Only this postcondition (and the ghost steps it needs) is claimed; the level walk is bounded-checked.
+//@ func (*SlimTrie).initLevels
+//@   property C18
+//@   opt kinds=post
+//@   requires st.inner != nil && (st.inner.NodeTypeBM != nil ==> wf_core(st))
+//@   requires st.inner.NodeTypeBM != nil ==> rank1w(NTW(st), len(NTW(st))) == nI(st) && len(NTW(st)) >= 1 && len(INW(st)) >= 1
+//@   modifies st.levels
+//@   use rank1_last(st.inner.NodeTypeBM.Words)
+//@   use rank1_last(st.inner.Inners.Words)
+//@   loop 1 invariant true
+//@   ensures st.inner.NodeTypeBM != nil && nI(st) > 0 ==> int(st.levels[len(st.levels)-1].total) == nN(st)
+//@   ensures st.inner.NodeTypeBM != nil ==> int(st.levels[len(st.levels)-1].inner) == nI(st)
+//@   ensures st.inner.NodeTypeBM != nil ==> st.levels[len(st.levels)-1].leaf == st.levels[len(st.levels)-1].total - st.levels[len(st.levels)-1].inner
+//@   ensures st.inner.NodeTypeBM == nil ==> len(st.levels) == 1 && st.levels[0].total == 0 && st.levels[0].inner == 0 && st.levels[0].leaf == 0
